@@ -355,6 +355,9 @@ class Executor:
         if m:
             name = fr.func.name + "::promoted[%s]" % m.group(1)
             return self.eval_const_item(st, name)
+        segs = path_segments(t)
+        if len(segs) >= 2 and segs[-2] in ENUMS and segs[-1] in ENUMS[segs[-2]]:
+            return Adt(segs[-2], segs[-1], [])     # unit variant used as a constant
         return Opaque("const", t)
 
     def eval_const_item(self, st, name):
